@@ -1,13 +1,22 @@
 """helpers to turn z3 model values into JSON-able python values for native replay"""
+import sys
 from fractions import Fraction
 
 import z3
 
 
+
 def val(m, t):
     v = m.eval(t, model_completion=True)
     if z3.is_int_value(v):
-        return v.as_long()
+        # counter-models may carry ints beyond CPython's default str() limit (C19); lifted only for this conversion, because the
+        # executor's concrete mode relies on the host's default limit
+        old = sys.get_int_max_str_digits()
+        sys.set_int_max_str_digits(0)
+        try:
+            return v.as_long()
+        finally:
+            sys.set_int_max_str_digits(old)
     if z3.is_rational_value(v):
         f = Fraction(v.numerator_as_long(), v.denominator_as_long())
         return float(f)
